@@ -8,7 +8,7 @@ _CACHE = {}
 
 def make_prior(kind="default", poly_trend=1, n_offsets=0, sigma_K0=30.0, P0_days=365.25, sigma_v=(100.0, 2.0, 0.05),
                mu_v=(0.0, 0.0, 0.0), K_custom=(0.0, 25.0), off_sig=(3.0, 5.0), off_mu=(0.0, 0.0), v_unit="km/s",
-               P_unit="day", P_lim=(1.0, 1000.0), s_const=0.0, cache=True, K_unit=None, v_time_unit="day", P0_unit="day"):
+               P_unit="day", P_lim=(1.0, 1000.0), s_const=0.0, cache=True, K_unit=None, v_time_unit="day", P0_unit="day", int_consts=False):
     """Returns (JokerPrior, declared) - declared holds plain numbers in km/s and days."""
     import astropy.units as u
     import pymc as pm
@@ -17,7 +17,14 @@ def make_prior(kind="default", poly_trend=1, n_offsets=0, sigma_K0=30.0, P0_days
     from thejoker.distributions import FixedCompanionMass
 
     key = (kind, poly_trend, n_offsets, sigma_K0, P0_days, tuple(sigma_v), tuple(mu_v), tuple(K_custom), tuple(off_sig), tuple(off_mu),
-           v_unit, P_unit, tuple(P_lim), s_const, K_unit, v_time_unit, P0_unit)
+           v_unit, P_unit, tuple(P_lim), s_const, K_unit, v_time_unit, P0_unit, int_consts)
+
+    def num(x):
+        # int_consts: integral prior constants are written as Python ints, as in the documentation's examples
+        # (`pm.Normal("dv0_1", 0, 10)`); pytensor then stores them as int8 / int16 / int32 constants
+        x = float(x)
+        return int(x) if (int_consts and x.is_integer()) else x
+
     if cache and key in _CACHE:
         return _CACHE[key]
     vu = u.km / u.s if v_unit == "km/s" else u.m / u.s
@@ -30,15 +37,15 @@ def make_prior(kind="default", poly_trend=1, n_offsets=0, sigma_K0=30.0, P0_days
     Pu = {"day": u.day, "yr": u.yr, "h": u.hour}[P_unit]
     Pf = (1 * u.day).to_value(Pu)
     with pm.Model() as model:
-        offs = [xu.with_unit(pm.Normal(f"dv0_{k + 1}", off_mu[k] * vf, off_sig[k] * vf), vu) for k in range(n_offsets)]
+        offs = [xu.with_unit(pm.Normal(f"dv0_{k + 1}", num(off_mu[k] * vf), num(off_sig[k] * vf)), vu) for k in range(n_offsets)]
         pars = {}
         if any(m != 0 for m in mu_v[:poly_trend]) or kind == "custom":
             # custom linear trend priors (non-zero means need explicit Normals)
             for i in range(poly_trend):
                 # v_i unit: velocity / day^i  (prior may be declared in v_unit)
-                pars[f"v{i}"] = xu.with_unit(pm.Normal(f"v{i}", mu_v[i] * vf * tf**i, sigma_v[i] * vf * tf**i), vu / tu**i)
+                pars[f"v{i}"] = xu.with_unit(pm.Normal(f"v{i}", num(mu_v[i] * vf * tf**i), num(sigma_v[i] * vf * tf**i)), vu / tu**i)
         if kind == "custom":
-            pars["K"] = xu.with_unit(pm.Normal("K", K_custom[0] * Kf, K_custom[1] * Kf), Ku)
+            pars["K"] = xu.with_unit(pm.Normal("K", num(K_custom[0] * Kf), num(K_custom[1] * Kf)), Ku)
         sv = [sigma_v[i] * vf * tf**i * vu / tu**i for i in range(poly_trend)]
         prior = tj.JokerPrior.default(
             P_min=P_lim[0] * Pf * Pu, P_max=P_lim[1] * Pf * Pu, sigma_K0=sigma_K0 * Kf * Ku, P0=(P0_days * u.day) if P0_unit == "day" else (P0_days / 365.25 * u.yr),
